@@ -46,9 +46,68 @@ TRACES = {}          # key (db path or unique id) -> {"idle_timeout_ms", "backof
 _anon = [0]
 
 
+ENGINE_TRACES = []   # (program, trace in the engine driver's record format, one "run" per control loop): the loops inside
+                     # the server, for TraceEngine.tla
+
+
 def take_traces():
     out = list(TRACES.values())
     TRACES.clear()
+    return out
+
+
+def take_engine_traces():
+    out = list(ENGINE_TRACES)
+    ENGINE_TRACES.clear()
+    return out
+
+
+def engine_view(trace):
+    """The server trace as the engine driver would have recorded it: run = generation of the control loop.
+    External input is taken where it reaches the run's mailbox (the end of the external adapter's send_event), not from
+    the driver's command line: a send to a released run comes after the loop that the send itself made the stack start."""
+    out = []
+    gen = 0
+    dead = False
+    adv_to = 0
+    for r in trace:
+        e = r["e"]
+        if e == "cmd" and r["cmd"][0] == "advance":
+            adv_to = max(adv_to, int(r["cmd"][1]))
+        if e == "loop_start":
+            gen = r["gen"]
+            dead = False
+            continue
+        if e in ("abort", "crash"):
+            dead = True                        # the loop of this generation executes nothing after this
+            if e == "crash" and out and out[-1]["e"] == "tick" and out[-1].get("run") == gen:
+                out.pop()                      # the process stopped inside on_tick: the commands of this tick never ran
+            continue
+        if gen == 0 or dead:
+            continue
+        if e == "run_init":
+            out.append(dict(r, run=gen))
+            if adv_to > r["t"]:                # the loop was started inside a driver advance: time goes on passing
+                out.append({"e": "cmd", "cmd": ["sleep", adv_to - r["t"]], "run": gen, "t": r["t"], "seq": r["seq"]})
+        elif e == "tick" and "state" in r:
+            out.append(dict(r, run=gen))
+        elif e in ("step_end", "wait", "step_start"):
+            out.append(dict(r, run=gen))
+        elif e == "ext_send_end" and "ptick" in r:
+            tk = r["ptick"]
+            if tk["k"] == "add":
+                out.append({"e": "cmd", "cmd": ["send", tk["ty"], tk["uid"], tk.get("target") or "*", int(tk.get("evk", 0))],
+                            "run": gen, "t": r["t"], "seq": r["seq"]})
+            elif tk["k"] == "cancel":
+                out.append({"e": "cmd", "cmd": ["cancel"], "run": gen, "t": r["t"], "seq": r["seq"]})
+        elif e == "cmd":
+            c = r["cmd"]
+            if c[0] == "advance":
+                # in the server time passes for the stack's own timers too: for the engine it is a sleep (its timers fire on the way)
+                if int(c[1]) > r["t"]:
+                    out.append(dict(r, run=gen, cmd=["sleep", int(c[1]) - r["t"]]))
+            elif c[0] == "release":
+                out.append(dict(r, run=gen, cmd=[c[0]]))
     return out
 
 
@@ -178,6 +237,7 @@ class ServerSystem:
         self.rig = Rig()
         self.rig.loop = self.loop
         self.rig.log = self.log
+        self.rig.wid_of = self._wid_of
         self.trace = []
         self.seq = 0
         self.run_no = run_no_base + 1
@@ -243,6 +303,14 @@ class ServerSystem:
             sysm.ngen += 1
             g = sysm.ngen
             sysm.log({"e": "loop_start", "gen": g, "rid": run_id})
+            try:
+                import time as _t
+                init_state = a[1] if len(a) > 1 else k.get("init_state")
+                start_event = a[2] if len(a) > 2 else k.get("start_event")
+                sysm.log({"e": "run_init", "gen": g, "state": en.p_state(init_state), "now": en.ms(_t.time()),
+                          "resumed": start_event is None})
+            except Exception as ex:  # noqa: BLE001
+                sysm.log({"e": "run_init_error", "err": type(ex).__name__})
             q = basic._queues.get(run_id)
 
             def done(t, g=g):
@@ -264,12 +332,12 @@ class ServerSystem:
             async def send_event(adapter, tick):
                 cur = ServerSystem._current
                 if cur is not None:
-                    cur.log({"e": "ext_send_begin", "tick": en.p_tick(tick)["k"]})
+                    cur.log({"e": "ext_send_begin", "tick": en.p_tick(tick)["k"], "ptick": en.p_tick(tick)})
                 try:
                     await o_send(adapter, tick)
                 finally:
                     if cur is not None and not cur.crashed:
-                        cur.log({"e": "ext_send_end"})
+                        cur.log({"e": "ext_send_end", "ptick": en.p_tick(tick)})
             IRM.IdleReleaseExternalRunAdapter.send_event = send_event
             IRM.IdleReleaseExternalRunAdapter._verif_wrapped = True
         ServerSystem._current = self
@@ -283,6 +351,7 @@ class ServerSystem:
         lines = server_lines(self.trace, restart)
         if lines is None:
             return
+        ENGINE_TRACES.append((self.prog, engine_view(self.trace)))
         rec = TRACES.get(key)
         if rec is None or not restart:
             if rec is not None:              # the same path reused for a new history
@@ -311,6 +380,12 @@ class ServerSystem:
         return en.ms(self.loop.time() - self.t0)
 
     def log(self, rec):
+        ct = getattr(self, "_cur_tick", None)
+        if ct is not None:
+            if rec.get("e") == "pub":
+                ct["pubs"].append(rec["p"])       # the publishes of a tick's commands (store writes lie in between here)
+            elif rec.get("e") in ("tick", "wait", "loop_exit", "loop_start", "crash"):
+                self._cur_tick = None
         rec["seq"] = self.seq
         rec["t"] = self.now_ms()
         rec["run"] = self.run_no
@@ -319,6 +394,14 @@ class ServerSystem:
 
     def live_now(self):
         return {s: int(self.rig.live.get(s, 0)) for s in sorted(self.prog["steps"])}
+
+    def _wid_of(self, step, ev):
+        for r in en._RUNNERS.values():
+            w = r.state.workers.get(step)
+            for ip in (w.in_progress if w is not None else ()):
+                if ip.event is ev:
+                    return ip.worker_id
+        return -1
 
     def queued_now(self):
         out = {s: 0 for s in sorted(self.prog["steps"])}
@@ -335,7 +418,15 @@ class ServerSystem:
             st = runner.state
             rec["eng"] = {"work": bool(any(w.queue or w.in_progress for w in st.workers.values()) or len(runner.tick_buffer) > 0),
                           "timers": len(runner.scheduled_wakeups) > 0, "running": bool(st.is_running)}
+            # the same fields the engine driver records, so that the loop inside the server is validated against Engine.tla too
+            import time as _t
+            rec["now"] = en.ms(getattr(self, "last_now", _t.time()))
+            rec["state"] = en.p_state(st)
+            rec["wake_abs"] = sorted([[en.ms(at), en.p_tick(tk)["k"]] for (at, _s, tk) in runner.scheduled_wakeups])
+            rec["pubs"] = []
         self.log(rec)
+        if "pubs" in rec:
+            self._cur_tick = rec
 
     def _wrap_store(self):
         st = self.store
